@@ -10,16 +10,21 @@ pub open spec fn pending(m: Map<Seq<char>, Seq<char>>) -> bool {
     || m.dom().contains("surround"@) || m.dom().contains("inside"@)
 }
 pub open spec fn foreign_pos(n: Seq<char>, m: Map<Seq<char>, Seq<char>>) -> bool {
-    if n == "rect"@ || n == "use"@ || n == "image"@ || n == "svg"@ || n == "foreignObject"@ {
+    // every kind located by x / y (+ width / height): rect, the invisible box and point, use / reuse instances, ...
+    if n == "rect"@ || n == "box"@ || n == "point"@ || n == "use"@ || n == "reuse"@ || n == "image"@ || n == "svg"@ || n == "foreignObject"@ {
         m.dom().contains("cx"@) || m.dom().contains("cy"@) || m.dom().contains("x1"@) || m.dom().contains("y1"@) || m.dom().contains("x2"@) || m.dom().contains("y2"@)
     } else if n == "circle"@ || n == "ellipse"@ {
         m.dom().contains("x"@) || m.dom().contains("y"@) || m.dom().contains("x1"@) || m.dom().contains("y1"@) || m.dom().contains("x2"@) || m.dom().contains("y2"@)
     } else if n == "line"@ {
-        m.dom().contains("x"@) || m.dom().contains("y"@) || m.dom().contains("cx"@) || m.dom().contains("cy"@)
+        m.dom().contains("x"@) || m.dom().contains("y"@) || m.dom().contains("cx"@) || m.dom().contains("cy"@) || m.dom().contains("width"@) || m.dom().contains("height"@)
     } else { false }
 }
 /// a dx / dy offset not yet folded into the position (native, and therefore final, on text / tspan / feOffset)
 pub open spec fn offset_pending(n: Seq<char>, m: Map<Seq<char>, Seq<char>>) -> bool {
     !(n == "text"@ || n == "tspan"@ || n == "feOffset"@) && (m.dom().contains("dx"@) || m.dom().contains("dy"@))
 }
-pub open spec fn unresolved(n: Seq<char>, m: Map<Seq<char>, Seq<char>>) -> bool { pending(m) || foreign_pos(n, m) || offset_pending(n, m) }
+/// a connector whose end points are not resolved yet (start / end are consumed when it is drawn)
+pub open spec fn connector_pending(n: Seq<char>, m: Map<Seq<char>, Seq<char>>) -> bool {
+    (n == "line"@ || n == "polyline"@) && m.dom().contains("start"@) && m.dom().contains("end"@)
+}
+pub open spec fn unresolved(n: Seq<char>, m: Map<Seq<char>, Seq<char>>) -> bool { pending(m) || foreign_pos(n, m) || offset_pending(n, m) || connector_pending(n, m) }
